@@ -12,9 +12,11 @@ parser.ParseExpr), for every tree of the fragment `wf`:
 
   ident, basic literal, number-unit literal, `$env`, every binary operator of Token.Precedence
   (regenerated table), the unary operators + - ! ^ & <-, `*x`, parentheses, selector, index,
-  call (with `...`), `x!`, `x?`, `x?:d` / `x!:d`      (after the fix commits c5f6783, 680bbfa)
+  call (with `...`), `x!`, `x?`, `x?:d` / `x!:d`, type assertion `x.(T)` / `x.(type)`, lambda
+  expressions `x => e`, `=> e`, `(x, y) => e`, `… => (e1, e2)` whose single body does not start
+  with `(`                    (after the fix commits c5f6783, 680bbfa, 3e34062, 40c20a1)
 
-The remaining node kinds of M3 (slice, composite / slice literal, lambda, type assertion) are
+The remaining node kinds of M3 (slice, composite / slice literal) are
 covered by the differential run and the oracle of `./check C22` only; three shapes among them do
 NOT round-trip in the real code (and in the model): see the witnesses at the end of this file
 and known_findings.txt (`errwrap-before-colon`, `lambda-body-leading-paren`,
@@ -69,6 +71,21 @@ def exMix : XExpr :=
   .binary .SUB a (.binary .QUO (.binary .MUL (.unary .SUB b) c) (.star (.call (.ident [0x66]) [a, b] true false)))
 /-- `a?:(b + c)`, as operand of a selector: `(a?:(b + c)).c` -/
 def exDef : XExpr := .selector (.errWrap a .QUESTION (some (.binary .ADD b c))) [0x63]
+
+/-- `f(x => x + 1, (a, b) => (a, b))` and a lambda as operand: `(a => b) + c.(T)`. -/
+def exLam : XExpr :=
+  .call (.ident [0x66])
+    [.lambda [[0x78]] false [.binary .ADD (.ident [0x78]) (.lit .INT [0x31])] false,
+     .lambda [[0x61], [0x62]] true [a, b] true] false false
+def exLamOperand : XExpr :=
+  .binary .ADD (.lambda [[0x61]] false [b] false) (.typeAssert c (some (.ident [0x54])))
+
+example : wf exLam = true ∧ noParen exLam = true := by decide
+example : wf exLamOperand = true ∧ noParen exLamOperand = true := by decide
+/-- `(a => b) + c.(T)`: the lambda operand is parenthesised (fix 3e34062). -/
+example : lex (printExpr exLamOperand) =
+    some [.op .LPAREN, .ident [0x61], .op .DRARROW, .ident [0x62], .op .RPAREN, .op .ADD, .ident [0x63],
+      .op .PERIOD, .op .LPAREN, .ident [0x54], .op .RPAREN] := by decide
 
 example : wf exErr = true ∧ noParen exErr = true := by decide
 example : wf exMix = true ∧ noParen exMix = true := by decide
